@@ -26,7 +26,7 @@ class LdrRegisterArm(Opcode):
                 processor.registers.set(self.n, offset_addr)
             if self.t == 15:
                 if substring(address, 1, 0) == 0b00:
-                    processor.load_write_pc(address)
+                    processor.load_write_pc(data)
                 else:
                     print('unpredictable')
             elif processor.unaligned_support() or substring(address, 1, 0) == 0b00:
